@@ -87,6 +87,10 @@ class TreeLayout:
 
             return self
 
+        # Forget any thread left behind by an earlier layout of this node
+        if hasattr(node, "thread"):
+            del node.thread
+
         # Assign the `node.y`, note the left/right child nodes, and recurse
         node.y = level
         left = node.left
